@@ -10,6 +10,8 @@ def spec(tier):
                 what="worlds of lib/world.py (accessibility forms x USE plain/ONLY/rename x re-export x default PRIVATE x local/host declarations): at every use site in main and in the internal procedure and for EVERY non-empty prefix of the identifier, the user-declared labels offered == names the reference resolver makes accessible there that start with the prefix; after CALL only callable ones")
     obs += [XH("C.contexts", F, "contexts", 200 if q else 600, what="21 context lines (CALL also after IF (cond)): member access chains (own + inherited components through 1 and 2 EXTENDS levels, nested, pointer, array element; nothing else offered), USE (modules only), USE..ONLY (public members of that module only), TYPE(/CLASS( (derived types only), CALL (callable only)")]
     obs += [XH("C.submods", F, "submods", 200 if q else 600, what="submodule of a submodule (SUBMODULE (m:parent) name), files opened in two orders: every entity of the submodule, its parent submodule and the ancestor module offered for every prefix and resolved to its declaration; a sibling submodule's entities are not; the outline names the unit")]
+    obs += parts("C.inherit_orders", "C05_resolve.py", "inherit_orders", 8, 250 if tier == "quick" else 900,
+                 what="three-level EXTENDS chain (abstract base with a deferred binding, abstract intermediate, concrete leaf) in three files plus a user, indexed in all 24 file orders by the real workspace_init and by opening the files one by one: components / bindings of every level resolve through obj%, completion after obj% offers exactly all of them, the leaf's unimplemented deferred binding is reported")
     return dict(
         obligations=obs,
         functions=["serve_autocomplete", "get_candidates", "child_candidates", "get_line_context", "get_var_stack", "get_use_tree", "climb_type_tree",
